@@ -208,9 +208,14 @@ class Circle(Shape2D):
         return Circle(self.radius, self.centroid)
 
     @property
-    def maximal_bounding_circle(self):
+    def maximal_bounded_circle(self):
         """:class:`~.Circle`: Get the largest bounded circle."""
         return Circle(self.radius, self.centroid)
+
+    @property
+    def maximal_bounding_circle(self):
+        """:class:`~.Circle`: Alias for :attr:`~.maximal_bounded_circle`."""
+        return self.maximal_bounded_circle
 
     @property
     def maximal_centered_bounded_circle(self):
